@@ -63,6 +63,7 @@ type cl struct {
 	// selected by that request or by the request map (galene hands the per-stream request
 	// over only if the new stream's tracks are known at its first push: timing-dependent)
 	maybe   map[string][]string
+	slow    time.Duration   // answers offers this late
 	sigSeen int             // number of signalling events already judged
 	held    map[string]bool // streams this client held at the previous check
 }
@@ -79,6 +80,8 @@ type scen struct {
 	step    int
 	bad     bool
 	nstream int
+	// threeTracks: every published stream has audio and two video tracks
+	threeTracks bool
 }
 
 func (sc *scen) note(s string) {
@@ -166,13 +169,26 @@ func (sc *scen) liveClients() []*vclient.Client {
 }
 
 func (sc *scen) quiesce() bool {
-	// silence for 3 x 130 ms covers galene's 200 ms push delay
-	if !vclient.Quiesce(sc.liveClients(), 3, 130*time.Millisecond, 40*time.Second) {
-		sc.run.Undecided("quiescence watchdog fired")
-		sc.bad = true
-		return false
+	// silence for 3 x 130 ms covers galene's 200 ms push delay; a slow answerer that is still
+	// sitting on an offer is not quiet yet (its answer makes the server send what it deferred)
+	for tries := 0; tries < 100; tries++ {
+		if !vclient.Quiesce(sc.liveClients(), 3, 130*time.Millisecond, 40*time.Second) {
+			break
+		}
+		busy := false
+		for _, c := range sc.clients {
+			if c.p != nil && c.p.Busy() {
+				busy = true
+			}
+		}
+		if !busy {
+			return true
+		}
+		time.Sleep(50 * time.Millisecond)
 	}
-	return true
+	sc.run.Undecided("quiescence watchdog fired")
+	sc.bad = true
+	return false
 }
 
 func activeIDs(ms []vrtc.MLine) ([]string, []string) {
@@ -320,6 +336,12 @@ func (sc *scen) check() {
 
 func (sc *scen) newClient(r *rand.Rand, n int) *cl {
 	c := &cl{name: fmt.Sprintf("b%ds%dk%d", sc.batch, sc.idx, n), request: map[string][]string{}, override: map[string][]string{}, aborted: map[string]bool{}, held: map[string]bool{}}
+	if sc.idx < 1000 && r.IntN(4) == 0 {
+		// a slow answerer: the server's next push (a late track, a changed request) finds the
+		// previous offer still outstanding and must be made up for after the answer
+		c.slow = time.Duration(250+r.IntN(200)) * time.Millisecond
+		sc.run.Count("slow_answerers", 1)
+	}
 	return c
 }
 
@@ -333,6 +355,9 @@ func (sc *scen) connect(c *cl, gen int) bool {
 	}
 	c.c = vc
 	c.p = vrtc.NewPeer(vc)
+	if c.slow > 0 {
+		c.p.AnswerDelay = c.slow
+	}
 	c.sigSeen = 0
 	c.held = map[string]bool{}
 	c.override = map[string][]string{}
@@ -376,7 +401,11 @@ func (sc *scen) publish(c *cl, r *rand.Rand, replace string) {
 	id := fmt.Sprintf("%s-st%d", c.id, sc.nstream)
 	label := labels[r.IntN(len(labels))]
 	var tracks []vrtc.TrackSpec
-	switch r.IntN(5) {
+	pick := r.IntN(5)
+	if sc.threeTracks {
+		pick = 2
+	}
+	switch pick {
 	case 0:
 		tracks = []vrtc.TrackSpec{{Kind: "audio", ID: "a0"}}
 	case 1:
@@ -907,6 +936,83 @@ func runChain(run *vk.Run, srv *vsrv.Server, batch uint64, idx int) {
 	}
 }
 
+// runSlowAnswer is a directed scenario for "containing exactly the requested kinds" when the
+// selection changes while an offer is outstanding: subscribers that take 400 ms to answer ask
+// for the LAST video track of streams whose second video track starts after the first offer
+// has gone out, and change their request while they sit on an offer.  The server has to make
+// up for what it deferred once the answer arrives.
+func runSlowAnswer(run *vk.Run, srv *vsrv.Server, batch uint64, idx int) {
+	r := run.Rand(5, batch, uint64(idx))
+	sc := &scen{run: run, srv: srv, batch: batch, idx: 3000 + idx, streams: map[string]*stream{}, threeTracks: true}
+	g := fmt.Sprintf("gs%d-%d", batch, idx)
+	sc.groups = []string{g}
+	srv.WriteGroup(g, map[string]any{"users": map[string]any{
+		"pres1": map[string]any{"password": "pw-pres1", "permissions": "present"},
+		"pres2": map[string]any{"password": "pw-pres2", "permissions": "present"},
+		"obs1":  map[string]any{"password": "pw-obs1", "permissions": "observe"},
+	}})
+	reqs := [][]string{nil, {"audio", "video-low"}, {"video-low"}}
+	for i, user := range []string{"pres1", "pres2", "obs1"} {
+		c := sc.newClient(r, i)
+		if i > 0 {
+			c.slow = 400 * time.Millisecond
+		}
+		sc.clients = append(sc.clients, c)
+		if !sc.connect(c, 0) {
+			return
+		}
+		sc.note(fmt.Sprintf("%s joins %s as %s (answers after %v)", c.name, g, user, c.slow))
+		if m, ok := c.c.Join(g, user, "pw-"+user); !ok || m.Str("kind") != "join" {
+			run.Undecided(fmt.Sprintf("join of %s failed: %v", c.name, m))
+			sc.bad = true
+			break
+		}
+		c.joined, c.group, c.user, c.present = true, g, user, user != "obs1"
+		if reqs[i] != nil {
+			c.request = map[string][]string{"": reqs[i]}
+			sc.note(fmt.Sprintf("%s request %v", c.name, c.request))
+			c.c.Send(vclient.Msg{"type": "request", "request": map[string]any{"": reqs[i]}})
+		}
+	}
+	defer func() {
+		for _, u := range sc.streams {
+			if u.live {
+				u.live = false
+				close(u.stop)
+			}
+		}
+		for _, c := range sc.clients {
+			if c.p != nil {
+				c.p.Shutdown()
+			}
+			if c.c != nil {
+				c.c.Close()
+			}
+		}
+	}()
+	pub := sc.clients[0]
+	for round := 0; round < 3 && !sc.bad; round++ {
+		sc.publish(pub, r, "")
+		if sc.bad {
+			return
+		}
+		// one subscriber changes its mind while it is (probably) still sitting on an offer
+		s := sc.clients[1+r.IntN(2)]
+		kinds := [][]string{{"audio", "video"}, {"audio", "video-low"}, {"video-low"}, {"audio"}}[r.IntN(4)]
+		s.request = map[string][]string{"": kinds}
+		s.aborted = map[string]bool{}
+		s.maybe = map[string][]string{}
+		sc.note(fmt.Sprintf("%s request %v", s.name, s.request))
+		s.c.Send(vclient.Msg{"type": "request", "request": map[string]any{"": kinds}})
+		run.Count("requests_while_an_offer_is_outstanding", 1)
+		run.Eval(1)
+		sc.check()
+	}
+	if !sc.bad {
+		run.Count("slow_answer_scenarios", 1)
+	}
+}
+
 // runUnpresentRace is a directed scenario for "a publisher that loses the right to present:
 // every subscriber that was offered its streams is sent a close".  While an operator takes
 // 'present' away from the publisher, the publisher's own messages are in flight: a fresh
@@ -1057,6 +1163,13 @@ func child() {
 			runUnpresentRace(run, srv, a.Index, i)
 		}(i)
 	}
+	for i := 0; i < 2; i++ {
+		wg.Add(1)
+		go func(i int) {
+			defer wg.Done()
+			runSlowAnswer(run, srv, a.Index, i)
+		}(i)
+	}
 	wg.Wait()
 	os.Exit(0)
 }
@@ -1109,6 +1222,7 @@ func main() {
 	run.FloorCounter("streams_published", 8)
 	run.FloorCounter("streams_replaced_twice_within_push_delay", 6)
 	run.FloorCounter("unpresent_races", 18)
+	run.FloorCounter("requests_while_an_offer_is_outstanding", 6)
 	run.Assume("quiescence: three ping/pong barrier rounds 130 ms apart without any message (covers galene's 200 ms push delay); watchdog 40 s => inconclusive")
 	run.Assume("the publisher sends the first packets of its tracks one track after the other, so the order in which the server learns the tracks ('first'/'last' video track) is known")
 	run.Assume("per-stream requests and aborts are modelled as lasting while the down stream exists / until the subscriber's next request, which is when galene pushes streams again")
